@@ -33,6 +33,11 @@ let () =
              let (k, s') = count_public_N pool.(ios i) !s in
              s := s'; push (string_of_int (int_of_nat k)); go r
            | "h" :: _ :: r -> push "ok"; go r
+           | "d" :: ncl :: r ->
+             let rec skip n r = if n = 0 then r else (match r with len :: r -> let (_, r) = take (2 * ios len) r in skip (n - 1) r | [] -> []) in
+             (match skip (ios ncl) r with
+              | k :: r -> let (_, r) = take (2 * ios k) r in push "ok"; go r
+              | [] -> ())
            | "m" :: _ :: k :: r -> let (_, r) = take (ios k) r in push "ok"; go r
            | "c" :: i :: v :: b :: r ->
              let res = condition_m lv pool.(ios i) (n_of_int (ios v)) (bool_of_tok b) in
